@@ -90,6 +90,11 @@ size_t cmpSize, int compressionType, double* hist_data)
 			for(i=0;i<dataLength;i++,p+=doubleSize)
 				(*newData)[i] = bytesToDouble(p);
 		}		
+#ifdef HAVE_TIMECMPR
+		//a verbatim step refreshes the history exactly as the compressor does for such a step
+		if(confparams_dec->szMode == SZ_TEMPORAL_COMPRESSION && hist_data != NULL)
+			memcpy(hist_data, *newData, dataLength*doubleSize);
+#endif
 	}
 	else if(confparams_dec->sol_ID==SZ_Transpose)
 	{
